@@ -23,7 +23,7 @@ def describe(case):
 
 @register("C28")
 def check(ctx):
-    core.build_harness(ctx)
+    core.build_harness(ctx, "vh")
     ctx.level = "model_checking"
     ctx.assumptions += [
         "the grid (every threshold, its neighbours, 0 and a large value per knob) is representative: the policy "
